@@ -31,7 +31,7 @@ pub struct Knobs {
 }
 
 pub fn io_name(k: u8) -> &'static str {
-    ["read_first", "write_first", "interleaved"][k as usize % 3]
+    ["read_first", "write_first", "interleaved", "echo"][k as usize % 4]
 }
 
 impl Knobs {
@@ -59,7 +59,7 @@ pub fn knobs() -> BoxedStrategy<Knobs> {
         2 => 200u16..1200,
         1 => 1200u16..4000,
     ];
-    (count.clone(), prop_oneof![4 => Just(0u16), 1 => 0u16..2000], prop_oneof![4 => Just(0u16), 1 => 0u16..2000], 2u8..200, 0u8..40, 0u8..3, any::<bool>())
+    (count.clone(), prop_oneof![4 => Just(0u16), 1 => 0u16..2000], prop_oneof![4 => Just(0u16), 1 => 0u16..2000], 2u8..200, 0u8..40, 0u8..4, any::<bool>())
         .prop_map(|(b, m, a, l, w, o, crlf)| Knobs {
             comments_before: b,
             comments_between: m,
@@ -79,7 +79,7 @@ pub enum ExCase {
     /// A small CNF with a generated reply replayed verbatim.
     Reply { clauses: Vec<Vec<i8>>, assumptions: Vec<i8>, reply: Vec<ReplyLine>, crlf: bool, final_newline: bool },
     /// SE-ST on a long chain so that the model itself exceeds the pipe capacity.
-    BigModel { n: u32, v_width: u8, io_order: u8 },
+    BigModel { n: u32, v_width: u8, io_order: u8, comments_before: u16, comment_len: u8 },
 }
 
 #[derive(Clone, Debug, PartialEq, Eq, Hash, Serialize, Deserialize)]
@@ -421,7 +421,7 @@ impl Prop for Exchange {
         "C16"
     }
     fn rule(&self) -> String {
-        "Three case kinds. Query: one argumentation problem (all 21, every selectable encoder, with/without certificate) on a generated framework of <=7 arguments run through ExternalSatSolver(fake_sat); fake_sat validates every DIMACS text strictly (header V >= every variable incl. assumption units, exact clause count, 0-terminated) and shapes its reply by generated knobs: 0-4000 comment lines of 2-200 bytes before/between/after (20 B to ~1 MiB, both sides of the 64 KiB pipe), 1..all literals per v line, read-first / write-first / chunk-interleaved I/O, CRLF; the answer must equal the brute-force answer. Reply: a small CNF whose reply is generated from a reply grammar (well-formed, or corrupted: missing/double status, missing/double terminator, out-of-range or non-numeric literal, stray line, s UNKNOWN, truncation, no model) and replayed verbatim; an independent reference reply parser decides Sat(model)/Unsat/Invalid/Unspecified and the solver object must return exactly that model / Unsatisfiable / (Unknown or abort). BigModel: SE-ST on a chain of 8k-30k arguments so that the v lines alone exceed 64 KiB. Every external interaction runs under a 30 s watchdog that consults the child's own progress log. Non-trivial: reply >64 KiB, or a reply classified Invalid, or a query needing >=2 external calls; distinct = case.".into()
+        "Three case kinds. Query: one argumentation problem (all 21, every selectable encoder, with/without certificate) on a generated framework of <=7 arguments run through ExternalSatSolver(fake_sat); fake_sat validates every DIMACS text strictly (header V >= every variable incl. assumption units, exact clause count, 0-terminated) and shapes its reply by generated knobs: 0-4000 comment lines of 2-200 bytes before/between/after (20 B to ~1 MiB, both sides of the 64 KiB pipe), 1..all literals per v line, read-first / write-first / chunk-interleaved / echo-while-reading I/O, CRLF; the answer must equal the brute-force answer. Reply: a small CNF whose reply is generated from a reply grammar (well-formed, or corrupted: missing/double status, missing/double terminator, out-of-range or non-numeric literal, stray line, s UNKNOWN, truncation, no model) and replayed verbatim; an independent reference reply parser decides Sat(model)/Unsat/Invalid/Unspecified and the solver object must return exactly that model / Unsatisfiable / (Unknown or abort). BigModel: SE-ST on a chain of 8k-30k arguments so that the instance and the v lines each exceed 64 KiB, with a banner of up to 600 KB printed before reading or comments echoed while reading (both pipes full at once). Every external interaction runs under a 30 s watchdog that consults the child's own progress log. Non-trivial: reply >64 KiB, or a reply classified Invalid, or a query needing >=2 external calls; distinct = case.".into()
     }
     fn assumptions(&self) -> Vec<String> {
         vec![
@@ -460,7 +460,8 @@ impl Prop for Exchange {
                 ExCase::Reply { clauses, assumptions, reply, crlf, final_newline }
             });
         let big_hi = tier.pick(16_000u32, 30_000u32);
-        let big = (8_000u32..big_hi, 0u8..40, 0u8..3).prop_map(|(n, v_width, io_order)| ExCase::BigModel { n, v_width, io_order });
+        let big = (8_000u32..big_hi, 0u8..40, 0u8..4, prop_oneof![1 => Just(0u16), 2 => 400u16..3000], 20u8..200)
+            .prop_map(|(n, v_width, io_order, comments_before, comment_len)| ExCase::BigModel { n, v_width, io_order, comments_before, comment_len });
         prop_oneof![
             60 => query,
             38 => reply,
@@ -504,7 +505,7 @@ impl Prop for Exchange {
                     rec.class("reply-above-pipe-capacity");
                 }
                 if calls >= 1 {
-                    rec.class(["io-read-first", "io-write-first", "io-interleaved"][knobs.io_order as usize % 3]);
+                    rec.class(&format!("io-{}", io_name(knobs.io_order)));
                 }
                 if (max_reply > 65536 || calls >= 2) && rec.nontrivial(&serde_json::to_string(case).unwrap()) {
                     rec.sample_sized(max_reply as usize, || {
@@ -588,11 +589,12 @@ impl Prop for Exchange {
                 }
                 Ok(())
             }
-            ExCase::BigModel { n, v_width, io_order } => {
+            ExCase::BigModel { n, v_width, io_order, comments_before, comment_len } => {
                 rec.class("kind-big-model");
                 rec.eval();
                 let n = *n as usize;
-                fake.configure(json!({"v_width": v_width, "io_order": io_name(*io_order)}));
+                fake.configure(json!({"v_width": v_width, "io_order": io_name(*io_order), "comments_before": comments_before, "comment_len": comment_len}));
+                rec.class(&format!("big-io-{}", io_name(*io_order)));
                 let fake2 = Arc::clone(&fake);
                 run_watched(&fake, 60, move || {
                     // chain 1 -> 2 -> ... -> n : unique stable extension = odd positions
